@@ -8,7 +8,7 @@ PID = 'C01'
 TAGS = ['abegin', 'awaited', 'spawn', 'now', 'tick', 'senter', 'sexit']
 RULE = ('seeded random programs of 1-4 activities mixing delays, `>=`/`==`/`<` date conditions (equal, zero, past, now, future '
         'dates), instant/eternity, `do(after=/at=)`, nested (until-)scopes with deadlines, cancels, flags; start times 0, 1/2, 1, '
-        '-1; exact rational times; plus a float-time profile with non-dyadic dates (judge C01f: dates only); non-trivial = at '
+        '-1; crowds of 6-12 activities with distinct dates requested in arbitrary order; exact rational times; plus a float-time profile with non-dyadic dates (judge C01f: dates only); non-trivial = at '
         'least 3 completed timed waits')
 
 PROFILE = {'flags': 2, 'depth': 3, 'until': 0.6, 'starts': [0, 0, F(1, 2), 1, -1, -2], 'rare_atoms': True,
@@ -19,6 +19,31 @@ PROFILE = {'flags': 2, 'depth': 3, 'until': 0.6, 'starts': [0, 0, F(1, 2), 1, -1
 def time_scenario(rng):
     sc = gen.gen_scenario(rng, PROFILE)
     return sc
+
+
+def crowd_scenario(rng):
+    """many activities with distinct wake-up dates pending at once, requested in arbitrary order (the time queue holds
+    6-12 keys): delays, absolute dates and deadlines of until-blocks"""
+    n = rng.randint(6, 12)
+    dates = rng.sample([F(k, 2) for k in range(1, 40)], n)
+    roots = []
+    for i, d in enumerate(dates):
+        form = rng.random()
+        if form < 0.4:
+            prog = [['sleep', d]]
+        elif form < 0.6:
+            prog = [['await', ['after', d]]]
+        elif form < 0.75:
+            prog = [['await', ['moment', d]]]
+        elif form < 0.9:
+            prog = [['scope', i, ['delay', d], ['await', ['eternity']]]]
+        else:
+            prog = [['scope', i, ['none'], ['spawn', i, i, None, d, False, ['prog', ['now']]]]]
+        prog.append(['now'])
+        for _ in range(rng.randint(0, 2)):
+            prog += [['sleep', rng.choice([F(1, 2), 1, F(3, 2), 2, 3, 5])], ['now']]
+        roots.append(['prog'] + prog)
+    return ['scenario', ['debug', 1], ['start', 0], ['flags', 1], ['locks', 0], ['roots'] + roots]
 
 
 FLOAT_DATES = [0.0, 0.1, 0.2, 0.3, 0.6, 0.7, 0.9, 1.1, 1.5, 2.3]
@@ -63,6 +88,8 @@ def run(tier, seed, drv):
         rng = rng_for(seed, PID, i)
         if i % 4 == 3:
             fl.check(float_scenario(rng), nontrivial=nontrivial)
+        elif i % 4 == 1:
+            st.check(crowd_scenario(rng), nontrivial=nontrivial, judge_extra=[('C07', 'user-errors')])
         else:
             st.check(time_scenario(rng), nontrivial=nontrivial, judge_extra=[('C07', 'user-errors')])
     return st.finish()
